@@ -15,6 +15,7 @@ Inductive ikind :=
 | ISubstr               (* any(p in str(path) for p in patterns) *)
 | IMatchOrSubstr        (* Path(path).match(p) or p in str(path) *)
 | IFnmatchOrSubstr      (* fnmatch(str(path), p) or p in str(path) *)
+| IFileHeader           (* file-header: Path.match(p) | `**/d/**` with d in path.parts | `**/f` with name == f or str.endswith(f) | p in str(path) *)
 | IFpDirPrefix.         (* file-placement: str(relative path).startswith(directory key)  (a match makes the rule APPLY) *)
 
 (* a test-file exemption: true when any listed test succeeds *)
